@@ -26,7 +26,7 @@ RULE = (
 )
 
 
-FOCI = ["float_m_restart", "float_m_restart_params", "gauss_range", "gauss_groups", "fix_tied", "pull_range", "fix_fit_free", "range_mag", "pull_groups"]
+FOCI = ["twin_ranges", "fix_zero_save", "float_m_restart", "float_m_restart_params", "gauss_range", "gauss_groups", "fix_tied", "pull_range", "fix_fit_free", "range_mag", "pull_groups"]
 
 
 def plan(tier, seed):
@@ -119,11 +119,15 @@ def generate(job):
             "fix_fit_free": [dict(base, k="float_m", side=rc.choice(["two", "lower", "upper"]))],
             "range_mag": [dict(base, k="var_range", j=1)],
             "pull_groups": [dict(base, k="float_m"), dict(base, k="var_range", j=1)],
+            "twin_ranges": [dict(base, k="float_m", w=round(rc.uniform(0.1, 0.2), 3))],
+            "fix_zero_save": [],
         }[focus] + cons[:1]
         if focus in ("gauss_groups", "pull_groups"):
             spec["n_groups"] = 2
-        if focus in ("pull_range", "fix_fit_free", "pull_groups"):
+        if focus in ("pull_range", "fix_fit_free", "pull_groups", "twin_ranges"):
             spec["pull"] = rc.choice([1.0, 2.0])
+        if focus == "twin_ranges":
+            spec["twin"] = True
     else:
         if not slow and rc.chance(0.15):
             spec["n_groups"] = 2
@@ -168,10 +172,16 @@ def generate(job):
             ops = [fit(ro.choice(FAST), 8), fit(ro.choice(FAST), 8)] + ops[:1]
         elif focus == "fix_fit_free":
             ops = [{"k": "fix_fit_free", "method": ro.choice(FAST), "maxiter": 2}, fit(ro.choice(FAST), 8), fit(ro.choice(FAST), 8)] + ops[:1]
+        elif focus == "twin_ranges":
+            ops = [fit(ro.choice(["BFGS", "CG", "BFGS"]), 8)]
+        elif focus == "fix_zero_save":
+            ops = [{"k": "fix_zero_save", "method": ro.choice(FAST), "i": ro.randrange(100), "how": ro.choice(["save_as", "save_params"])}, fit(ro.choice(FAST))] + ops[:1]
         elif focus in ("fix_tied", "range_mag"):
             ops = [fit(ro.choice(FAST))] + ops[:2]
         elif ro.chance(0.15):
             ops.insert(ro.randrange(len(ops)), {"k": "fix_fit_free", "method": ro.choice(FAST), "maxiter": 2})
+        elif ro.chance(0.12):
+            ops.insert(ro.randrange(len(ops)), {"k": "fix_zero_save", "method": ro.choice(FAST), "i": ro.randrange(100), "how": ro.choice(["save_as", "save_params"])})
     spec["ops"] = ops
     return spec
 
@@ -382,6 +392,19 @@ class Session:
             return self.save_restart(i, op)
         if k == "fit_interrupted":
             return self.fit_interrupted(i, op)
+        if k == "fix_zero_save":
+            # a free phase is fixed at exactly 0.0 by the user, the rest is fitted, the result is saved and loaded
+            # into a freshly built model (where that phase is free and starts somewhere else)
+            cand = [n for n in sorted(vm.trainable_vars) if n.endswith("i")]
+            if not cand:
+                return
+            name = cand[op.get("i", 0) % len(cand)]
+            vm.set_fix(name, 0.0)
+            log.count("probe.parameter_fixed_at_exactly_zero")
+            r = self.run_op(i, {"k": "fit", "method": op["method"], "maxiter": 2, "grad_scale": 1.0})
+            if r == "stop":
+                return r
+            return self.save_restart(i, {"how": op.get("how", "save_as")})
         if k == "fix_fit_free":
             # the likelihood-profile pattern: fix a (ranged) free parameter, fit the rest, free it again
             cand = [n for n in sorted(self.info["ranges"]) if n in vm.trainable_vars] or [n for n in sorted(vm.trainable_vars) if n.endswith("r")][:1]
@@ -593,6 +616,18 @@ def execute(spec):
             r = ses.run_op(i, op)
             if r == "stop":
                 break
+        if spec.get("twin") and not log.failures:
+            # a second, independent model in the same process: the same card with NARROWER ranges for the same
+            # parameter names (half the width); its fits must respect ITS ranges
+            spec2 = copy.deepcopy(spec)
+            for c in spec2["constraints"]:
+                c["w"] = round(c["w"] * 0.5, 4)
+            spec2["data_seed"] = spec["data_seed"] + 1
+            log.count("probe.second_model_with_other_ranges")
+            ses2 = Session(spec2, log, scratch)
+            for i, op in enumerate([o for o in spec["ops"] if o["k"] == "fit"][:2] or [{"k": "fit", "method": "BFGS", "maxiter": 8, "grad_scale": 1.0}]):
+                if ses2.run_op(100 + i, op) == "stop":
+                    break
     has_constr = bool(spec["constraints"])
     res = log.result(spec=spec, nontrivial=ses.nfits >= 1 and (has_constr or ses.changing >= 2))
     res["opkinds"] = {k[3:]: v for k, v in log.counters.items() if k.startswith("op.")}
